@@ -142,6 +142,22 @@ def findfirstLiteral (pat : String) (sortedValues : List String) : Option String
 def grepLiteral (pat s : String) : Option String :=
   if containsL pat.toList s.toList then some pat else none
 
+/-- `subst(pattern, repl, string)` = `re.sub(pattern, repl, string)` for a literal, non-empty pattern and a literal
+    replacement: every leftmost non-overlapping occurrence, scanning left to right (`skip` counts the characters of
+    an occurrence already replaced) -/
+def substGo (p r : List Char) : Nat → List Char → List Char
+  | _, [] => []
+  | skip + 1, _ :: cs => substGo p r skip cs
+  | 0, c :: cs => if isPrefixL p (c :: cs) then r ++ substGo p r (p.length - 1) cs else c :: substGo p r 0 cs
+
+def substLiteral (pat repl s : String) : Option String :=
+  if pat.isEmpty then none else some (String.ofList (substGo pat.toList repl.toList 0 s.toList))
+
+/-- `grepn(pattern, string, n)` for a literal pattern: group 0 is the pattern itself, there is no other group
+    (`none` = IndexError) -/
+def grepnLiteral (pat s : String) (n : Int) : Option (Option String) :=
+  if containsL pat.toList s.toList then (if n == 0 then some (some pat) else none) else some none
+
 /-! ### `maxwidth(x, n)` = `textwrap.shorten(x, width=n)` (CPython `textwrap`), for texts without hyphens -/
 
 /-- one character of `str.split()`: white space closes the current word -/
